@@ -433,16 +433,22 @@ def list_mutation_keeps_valid(op_i: int, sel: int, v: int, sel2: int, w: int, id
 
 @obligation(prop="C01", sites=("inv", "accepted", "rejected"),
             encodes=["cincoconfig.fields.dict_field.DictProxy._validate"], budget={"quick": 200, "thorough": 500},
-            what="in-place mutation of a typed dict value (6 mutators) with candidate keys/values of any shape: "
+            what="in-place mutation of a typed dict value (6 mutators) with candidate keys/values of any shape, or "
+                 "entries arriving from a sibling typed dict of the same field classes with looser options (update, "
+                 "|=, assignment, dotted assignment, constructor keyword, copies): "
                  "afterwards every key is an upper-case str and every value satisfies IntField(min=0) or is None")
-def dict_mutation_keeps_valid(op_i: int, ksel: int, sel: int, v: int) -> bool:
+def dict_mutation_keeps_valid(op_i: int, ksel: int, sel: int, v: int, from_sibling: bool = False) -> bool:
     """
     pre: 0 <= op_i < 6 and 0 <= ksel <= 3 and 0 <= sel <= 5
     post: _
     """
     schema = Schema()
     schema.x = DictField(StringField(transform_case="upper"), IntField(min=0), default=lambda: {"A": 1})
+    # a sibling typed dict of the same key / value field CLASSES with looser options
+    schema.raw = DictField(StringField(), IntField(), default=lambda: {})
     cfg = schema()
+    if from_sibling:
+        return _dict_from_sibling(schema, cfg, op_i, ksel, sel, v)
     op = DOPS[0]
     for i in range(len(DOPS)):
         if op_i == i:
@@ -479,6 +485,52 @@ def dict_mutation_keeps_valid(op_i: int, ksel: int, sel: int, v: int) -> bool:
              lambda: "typed dict holds an un-normalised key after %s: %r" % (op, dict(cur)))
         hold("inv", item is None or (type(item) is int and item >= 0),
              lambda: "typed dict holds an invalid value after %s: %r" % (op, dict(cur)))
+    return True
+
+
+def _dict_from_sibling(schema, cfg, op_i: int, ksel: int, sel: int, v: int) -> bool:
+    """the entries come from ANOTHER typed dict value (a DictProxy of the looser sibling field), through update,
+    |=, assignment or a constructor keyword: they are held to the target field's own constraints"""
+    key = "a"
+    for i, cand in enumerate(("a", "Bb", "CC", "d")):
+        if ksel == i:
+            key = cand
+    val = v
+    if sel == 0:
+        val = -1 - (v if v >= 0 else 0)       # negative: forbidden by the target, fine for the sibling
+    elif sel > 2:
+        skip("value shapes: negative / symbolic int")
+    try:
+        cfg.raw = {key: val}
+    except ValueError:
+        skip("not acceptable to the sibling either")
+    source = cfg.raw
+    hold("accepted", type(source) is DictProxy, "sibling value is not typed")
+    target_cfg = cfg
+    try:
+        if op_i == 0:
+            cfg.x.update(source)
+        elif op_i == 1:
+            proxy = cfg.x
+            proxy |= source
+        elif op_i == 2:
+            cfg.x = source
+        elif op_i == 3:
+            cfg["x"] = source
+        elif op_i == 4:
+            target_cfg = schema(x=source)
+        else:
+            cfg.x = cfg.x.copy()
+            cfg.x.update(source.copy())
+    except ValueError:
+        hold("rejected", True)
+    cur = target_cfg.x
+    hold("inv", type(cur) is DictProxy, "typed dict lost its type")
+    for k, item in cur.items():
+        hold("inv", type(k) is str and k == k.upper(),
+             lambda: "typed dict holds an un-normalised key copied from a sibling dict: %r" % (dict(cur),))
+        hold("inv", item is None or (type(item) is int and item >= 0),
+             lambda: "typed dict holds a value its field forbids, copied from a sibling dict: %r" % (dict(cur),))
     return True
 
 
@@ -525,4 +577,61 @@ def sibling_fields_of_one_class(which: int, p: int, lo: Optional[int], hi: Optio
     hold("inv", cfg.loose == value, "permissive field did not take the value")
     hold("inv", (cfg.strict == value) if ok else (cfg.strict is None),
          lambda: "strict field holds %r although its own options %s it" % (cfg.strict, "allow" if ok else "exclude"))
+    return True
+
+
+# --------------------------------------------------------------------------- values that come from the environment
+ENV_TEXTS = ("8443", "true", '"x"', "[1, 2]", "1,2", '{"a": 1}', "x", "-5", "[-5]", "null", "[]", " ")
+
+
+@obligation(prop="C01", sites=("inv", "refused"), encodes=["cincoconfig.core.Field.__setdefault__"],
+            budget={"quick": 120, "thorough": 300}, stubs=("FakeEnviron",),
+            what="fields of every container / scalar kind bound to an environment variable whose text is drawn from "
+                 "a menu (numbers, JSON scalars / arrays / maps, comma lists, blanks): after construction and after a "
+                 "reset every readable value satisfies its field's constraints (type, bounds, item constraints) or "
+                 "construction fails with a validation error; whether the variable is honoured is C14's subject")
+def env_values_satisfy_constraints(kind: int, ti: int, then_reset: bool) -> bool:
+    """
+    pre: 0 <= kind <= 4 and 0 <= ti < 12
+    post: _
+    """
+    from vf.hlib.stubs import fake_environ
+    text = ENV_TEXTS[0]
+    for i in range(len(ENV_TEXTS)):
+        if ti == i:
+            text = ENV_TEXTS[i]
+    with fake_environ({"APP_X": text}):
+        schema = Schema(env="APP")
+        if kind == 0:
+            schema.x = IntField(min=0, default=1)
+        elif kind == 1:
+            schema.x = StringField(max_len=3, default="d")
+        elif kind == 2:
+            schema.x = ListField(IntField(min=0), default=lambda: [1])
+        elif kind == 3:
+            schema.x = DictField(StringField(transform_case="upper"), IntField(min=0), default=lambda: {"A": 1})
+        else:
+            schema.x = BoolField(default=False)
+        try:
+            cfg = schema()
+        except ValidationError:
+            return hold("refused", True)
+        if then_reset:
+            try:
+                reset_value(cfg, "x")
+            except ValidationError:
+                return hold("refused", True)
+        x = cfg.x
+        if kind == 0:
+            good = x is None or (type(x) is int and x >= 0)
+        elif kind == 1:
+            good = x is None or (type(x) is str and len(x) <= 3)
+        elif kind == 2:
+            good = x is None or (type(x) is ListProxy and all(type(i) is int and i >= 0 for i in x))
+        elif kind == 3:
+            good = x is None or (type(x) is DictProxy and all(
+                type(k) is str and k == k.upper() and type(i) is int and i >= 0 for k, i in x.items()))
+        else:
+            good = x is None or type(x) is bool
+        hold("inv", good, lambda: "with APP_X=%r the field of kind %d holds %r" % (text, kind, x))
     return True
